@@ -381,9 +381,9 @@ def main():
             print(json.dumps(w, indent=1)[:3000])
         return 0
     th = a.tier == 'thorough'
-    for r in parallel(worker, [(bindir, i, 400 if not th else 8000) for i in range(32)]):
+    for r in parallel(worker, [(bindir, i, 400 if not th else 30000) for i in range(32)]):
         rep.merge(r)
-    for r in parallel(repl_worker, [(bindir, i, 40 if not th else 300) for i in range(16)]):
+    for r in parallel(repl_worker, [(bindir, i, 40 if not th else 1000) for i in range(16)]):
         rep.merge(r)
     return rep.finish(
         rule='every transform of the tf table on arguments of lengths 0..5, 20, 31..33, 55..57, 63..65, 119/120, 252..254, 300 (prefix-compact-size also 65535/65536), strings and integers; encode/decode pairs with every kind of '
